@@ -73,6 +73,10 @@ pub fn parse_import(it: &mut LexIterator) -> ParseResult {
         Ok(())
     })?;
 
+    if import.is_empty() {
+        return Err(Box::from(custom("Expected at least one name to import", end)));
+    }
+
     let alias = if it.eat_if(&Token::As).is_some() {
         let mut alias = vec![];
         it.peek_while_not_token(&Token::NL, &mut |it, lex| match lex.token {
